@@ -37,7 +37,7 @@ import bisect, hashlib, json, os, re, subprocess, sys
 
 ROOT = os.path.dirname(os.path.dirname(os.path.abspath(__file__)))
 FILES = ["cgnslib.c", "cgns_internals.c", "cgns_io.c", "cgns_error.c"]
-VERSION = "9"
+VERSION = "10"
 
 ERR_FUNCS = {"cgi_error", "cg_io_error", "set_error"}
 # libc / compiler calls that neither touch the file nor (unless their destination is a tree pointer) the tree
@@ -308,6 +308,9 @@ class Walker:
         n = strip(n)
         k = n.get("kind")
         if k == "ArraySubscriptExpr":
+            b0 = strip(kids(n)[0])
+            if b0.get("kind") == "DeclRefExpr" and b0["referencedDecl"]["name"] in self.mptr:
+                return True         # p[i] with p a local that aliases the tree
             return self.is_mirror_lvalue(kids(n)[0])
         if k == "MemberExpr":
             base = kids(n)[0]
@@ -318,8 +321,6 @@ class Walker:
             return self.is_mirror_lvalue(base)
         if k == "UnaryOperator" and n.get("opcode") == "*":
             return self.is_mirror_ptr(kids(n)[0])
-        if k == "DeclRefExpr" and n["referencedDecl"]["name"] in self.mptr:
-            return True             # p[i] with p a tainted local (reached through ArraySubscriptExpr)
         return False
 
     def is_mirror_ptr(self, n):
